@@ -11,7 +11,7 @@ from .core import AnalysisError, Program
 
 VERIF = os.path.dirname(os.path.dirname(os.path.abspath(__file__)))
 KNOWN = os.path.join(VERIF, "known_findings.json")
-EVIDENCE_DIR = os.path.join(VERIF, "evidence")
+EVIDENCE_DIR = os.environ.get("MOLLI_VERIF_EVIDENCE_DIR") or os.path.join(VERIF, "evidence")  # the override is for the sweep tools only
 REPLAY_DIR = os.path.join(VERIF, "out", "replay")
 
 
